@@ -65,7 +65,10 @@ class P(vlib.Prop):
             "observations carry the number of consumers parked un-signalled in Read (sync.Cond notify list, by reflection); "
             "non-blocking scripts park up to 3 real consumers in Read (LCRead/LCWake) and corrupt stored copies of queued "
             "requests of the persistent queue (LCorrupt, the last queued one half of the time); 90 cases line up 1-3 Offers "
-            "on the held mutex in front of 1-3 parked consumers; 60 cases put unreadable items in front of blocked producers.")
+            "on the held mutex in front of 1-3 parked consumers; 60 cases put unreadable items in front of blocked producers. "
+            "Strengthening 3: in non-blocking persistent scripts every 7th Offer fails on Encoding.Marshal or on the storage "
+            "write (LOfferF); after EVERY refused Offer the oracle checks that Size(), the queue contents and the hand-off set "
+            "are unchanged.")
     trusted_base = [
         "Coq 8.16.1 kernel + vm_compute (coqc); no axioms (Print Assumptions: closed under the global context)",
         "hand-written LTS coq/C02/Model.v after memory_queue.go, persistent_queue.go (volatile half), cond.go, async_queue.go's consumer loop; tied by the correspondence run",
